@@ -1231,7 +1231,11 @@ def gen_inf_case(rng):
         w = rng.choice([4, 6, 9])
         c = [float(rng.choice([1, 2]) * v + rng.randint(0, w)) for v in y]
         if rng.random() < 0.3:
-            c[rng.randrange(n)] = rng.choice([math.inf, -math.inf])
+            # never an infinite cell in a row where another feature is infinite: pandas' spearman
+            # ranks a -inf shared by both columns of a pair but masks a shared +inf (reported)
+            free = [i for i in range(n) if not any(math.isinf(col[i]) for col in cols)]
+            if free:
+                c[rng.choice(free)] = rng.choice([math.inf, -math.inf])
         cols.append(c)
     quali = [["ab"[(v + (rng.random() < 0.3)) % 2] for v in y]] if rng.random() < 0.3 else []
     kw = {} if rng.random() < 0.5 else {"thresh_corr": rng.choice([0.9, 0.7])}
